@@ -40,7 +40,10 @@ TAGVALS = [("t", ()), ("t", ("x",)), ("t", ("x", "y")), ("s", "q")]
 LINKVALS = [("l", ()), ("l", (("enclosure", "h1"), ("license", "h2"))), ("l", (("license", None), ("license", "h3"))),
             ("l", (("alternate", "h4"), (None, "h5"), ("license", "h6"))), ("l", (("enclosure", None),)), ("s", "q"),
             # a license link whose href is PRESENT but empty (e.g. <link rel="license" href=""/> without a base): it is the answer
-            ("l", (("license", ""), ("license", "h7"))), ("l", (("license", ""),)), ("l", (("enclosure", ""), ("license", "")))]
+            ("l", (("license", ""), ("license", "h7"))), ("l", (("license", ""),)), ("l", (("enclosure", ""), ("license", ""))),
+            # link dicts with FURTHER members whose names are aliases (an <enclosure guid=".." description=".."/>): the derived views hand them over as stored
+            ("l", (("enclosure", "h8", (("guid", "g"), ("description", "dd"), ("summary", "ss"))),)),
+            ("l", (("enclosure", "h9", (("summary", "s1"), ("description", "d1"), ("url", "u1"))), ("license", "h10", (("copyright", "c"),))))]
 
 
 def tup(x):
@@ -52,7 +55,8 @@ def values_for(key):
         return TAGVALS
     if key == "links":
         return LINKVALS
-    return [("s", s) for s in STRS]
+    # None is a value like any other (a JSON feed's "summary": null): present, readable through every alias
+    return [("s", s) for s in STRS] + [("n", None)]
 
 
 def py_value(v):
@@ -60,17 +64,22 @@ def py_value(v):
     kind, x = v
     if kind == "s":
         return x
+    if kind == "n":
+        return None
     if kind == "t":
         return [FeedParserDict(term=t, scheme=None, label=None) for t in x]
     if kind == "l":
         out = []
-        for rel, href in x:
-            d = FeedParserDict()
+        for item in x:
+            rel, href = item[0], item[1]
+            raw = {}
             if rel is not None:
-                d["rel"] = rel
+                raw["rel"] = rel
             if href is not None:
-                d["href"] = href
-            out.append(d)
+                raw["href"] = href
+            for k, val in (item[2] if len(item) > 2 else ()):
+                raw[k] = val
+            out.append(FeedParserDict(raw))          # the constructor stores literally, as the parser's FeedParserDict(attrs_d) does
         return out
     raise ValueError(v)
 
@@ -79,16 +88,20 @@ def enc_value(v):
     kind, x = v
     if kind == "s":
         return "s:" + enc(x)
+    if kind == "n":
+        return "n:"
     if kind == "t":
         return "t:" + ",".join(enc(t) for t in x)
     if kind == "l":
-        return "l:" + ",".join(enc(r) + "/" + enc(h) for r, h in x)
+        return "l:" + ",".join(enc(it[0]) + "/" + enc(it[1]) + ("/" + ";".join(enc(k) + "=" + enc(val) for k, val in it[2]) if len(it) > 2 and it[2] else "") for it in x)
 
 
 def canon_py(x):
     """canonical text of a Python value returned by the implementation"""
     if isinstance(x, str):
         return "s:" + enc(x)
+    if x is None:
+        return "n:"
     if isinstance(x, list):
         if all(isinstance(i, dict) and "term" in i for i in x) and x:
             return "t:" + ",".join(enc(i["term"]) for i in x)
@@ -96,7 +109,10 @@ def canon_py(x):
             # [] is ambiguous between tags/links: the model prints what was stored; normalise both to 'e:'
             if not x:
                 return "e:"
-            return "l:" + ",".join(enc(i.get("rel")) + "/" + enc(i.get("href")) for i in x)
+            def others(i):
+                o = [(k, dict.__getitem__(i, k)) for k in dict.keys(i) if k not in ("rel", "href")]
+                return ("/" + ";".join(enc(k) + "=" + enc(val) for k, val in o)) if o else ""
+            return "l:" + ",".join(enc(dict.get(i, "rel")) + "/" + enc(dict.get(i, "href")) + others(i) for i in x)
     return "?" + repr(x)
 
 
@@ -120,7 +136,7 @@ def observe_py(d, op, key, default=None):
                 return "ok %s" % canon_py(v)
             if op == "attr":
                 v = getattr(d, key)
-                if not isinstance(v, (str, list)):
+                if v is not None and not isinstance(v, (str, list)):
                     return "classattr"
                 return "ok %s %s" % (canon_py(v), "warn" if w else "nowarn")
         except KeyError:
